@@ -22,6 +22,188 @@ class G:
         return [self.r.choice(a) for _ in range(n)]
 
 
+ENTRIES_TEXT = ["str", "string", "refstring", "fromstr"]
+ENTRIES_BYTES = ["bytes", "vec"]
+ENTRIES_SYMS = ["collect", "fromvec", "extend"]
+
+
+def boundary_lengths(w, words=3, delta=2):
+    out = {0, 1, 2, 3}
+    for j in range(1, words + 1):
+        base = (64 * j) // w
+        for d in range(-delta, delta + 1):
+            if base + d >= 0:
+                out.add(base + d)
+    return sorted(out)
+
+
+def bad_bytes(g, codec, utf8_only):
+    """bytes the codec refuses: lower case, digits, whitespace, neighbours of valid letters, high bytes"""
+    a = set(g.alpha[codec])
+    cands = [b for b in list(b"acgtnxN-.*?! 0\n\tUXZ@[`{~") + [x + 1 for x in a] + [x - 1 for x in a] + [x ^ 0x20 for x in a] if 0 <= b < 128 and b not in a]
+    if not utf8_only:
+        cands += [0x80, 0xff, 0xc3, 0xa9]
+    return cands
+
+
+def gen_C01(g, tier):
+    r = g.r
+    lines = []
+    reps = 1 if tier == "quick" else 6
+    for c in CODECS:
+        w = g.width[c]
+        Ls = boundary_lengths(w, 3 if tier == "quick" else 5)
+        for n in Ls:
+            for _ in range(reps):
+                t = g.text(c, n)
+                entries = ENTRIES_TEXT + ENTRIES_BYTES + ENTRIES_SYMS if tier != "quick" else [r.choice(ENTRIES_TEXT), r.choice(ENTRIES_BYTES), r.choice(ENTRIES_SYMS)]
+                for e in entries:
+                    lines.append(f"{c} show p {e} {hx(t)}")
+                if n > 0:
+                    i = r.randrange(n)
+                    lines.append(f"{c} nth {i} p {r.choice(ENTRIES_BYTES)} {hx(t)}")
+                    lines.append(f"{c} len p {r.choice(ENTRIES_TEXT)} {hx(t)}")
+                # malformed: one refused byte at the start / end / random position, sometimes two
+                for pos in ({0, n, r.randrange(n + 1)} if n else {0}):
+                    for utf8_only in (True, False):
+                        bb = r.choice(bad_bytes(g, c, utf8_only))
+                        t2 = t[:pos] + [bb] + t[pos:]
+                        if r.random() < 0.3:
+                            q = r.randrange(len(t2) + 1)
+                            t2 = t2[:q] + [r.choice(bad_bytes(g, c, utf8_only))] + t2[q:]
+                        e = r.choice(ENTRIES_TEXT) if utf8_only else r.choice(ENTRIES_BYTES)
+                        lines.append(f"{c} show p {e} {hx(t2)}")
+        # multi-byte UTF-8 through the &str entry points
+        t = g.text(c, 5)
+        for e in ENTRIES_TEXT:
+            lines.append(f"{c} show p {e} {hx(t[:2] + [0xc3, 0xa9] + t[2:])}")
+        # long random texts
+        for _ in range(3 if tier == "quick" else 40):
+            n = r.randrange(100, 1000)
+            t = g.text(c, n)
+            lines.append(f"{c} show p {r.choice(ENTRIES_TEXT + ENTRIES_BYTES + ENTRIES_SYMS)} {hx(t)}")
+            pos = r.randrange(n)
+            lines.append(f"{c} show p vec {hx(t[:pos] + [r.choice(bad_bytes(g, c, False))] + t[pos:])}")
+        # every single byte as a one-character text
+        for b in range(256):
+            lines.append(f"{c} show p bytes {b:02x}")
+    return lines
+
+
+FORMS = ["r", "rt", "rti", "ri", "rf", "full", "one"]
+
+
+def form_args(form, a, b):
+    """protocol (A, B) arguments selecting symbols a..b (half-open) with this form, or None if the form cannot express it"""
+    if form == "r":
+        return (a, b)
+    if form == "rt":
+        return (0, b) if a == 0 else None
+    if form == "rti":
+        return (0, b - 1) if a == 0 and b >= 1 else None
+    if form == "ri":
+        return (a, b - 1) if b >= 1 and b - 1 >= 0 else None
+    if form == "rf":
+        return None  # depends on the parent's length; handled by the caller
+    if form == "full":
+        return None
+    if form == "one":
+        return (a, 0) if b == a + 1 else None
+    return None
+
+
+def slice_expr(g, base, n, depth):
+    """wrap `base` (a slice expression of length n) in `depth` in-bounds re-slicings; returns (expr, length)"""
+    r = g.r
+    e, ln = base, n
+    for _ in range(depth):
+        a = r.randrange(ln + 1)
+        b = r.randrange(a, ln + 1)
+        forms = [f for f in FORMS if form_args(f, a, b) is not None]
+        if b == ln:
+            forms.append("rf")
+        if a == 0 and b == ln:
+            forms.append("full")
+        f = r.choice(forms)
+        if f == "rf":
+            A, B = a, 0
+        elif f == "full":
+            A, B = 0, 0
+        else:
+            A, B = form_args(f, a, b)
+        e = f"sl {f} {A} {B} {e}"
+        ln = b - a
+    return e, ln
+
+
+def gen_C03(g, tier):
+    import math
+    r = g.r
+    lines = []
+    big = [1 << 63, 1 << 62, (1 << 63) + (1 << 62), (1 << 64) - 1, (1 << 64) - 2]
+    for c in CODECS:
+        w = g.width[c]
+        ns = [64 // w + 3, 128 // w + 2] if tier == "quick" else [64 // w + 3, 128 // w + 2, 192 // w + 1, 5]
+        for n in ns:
+            t = g.text(c, n)
+            base = f"p str {hx(t)}"
+            starts = range(0, min(n, 64 // math.gcd(w, 64) + 1) + 1)
+            for a in starts:
+                bs_ = sorted({a, a + 1, a + 2, (a + n) // 2, n - 1, n} & set(range(a, n + 1)))
+                for b in bs_:
+                    for f in FORMS:
+                        if f == "rf":
+                            if b != n:
+                                continue
+                            A, B = a, 0
+                        elif f == "full":
+                            if not (a == 0 and b == n):
+                                continue
+                            A, B = 0, 0
+                        else:
+                            ab = form_args(f, a, b)
+                            if ab is None:
+                                continue
+                            A, B = ab
+                        lines.append(f"{c} show sl {f} {A} {B} {base}")
+                # symbol access through a slice starting at a
+                if a < n:
+                    for i in sorted({0, (n - a) // 2, n - a - 1}):
+                        lines.append(f"{c} nth {i} sl rf {a} 0 {base}")
+                        lines.append(f"{c} get {i} sl rf {a} 0 {base}")
+                    for i in (n - a, n - a + 1):
+                        lines.append(f"{c} nth {i} sl rf {a} 0 {base}")
+                        lines.append(f"{c} get {i} sl rf {a} 0 {base}")
+                        lines.append(f"{c} show sl one {i} 0 sl rf {a} 0 {base}")
+            # out of bounds just past the end, reversed bounds
+            for (A, B) in [(0, n + 1), (0, n + 2), (n, n + 1), (n + 1, n + 1), (n + 1, n + 2), (2, 1), (n, n - 1), (n + 1, 0)]:
+                for f in ("r", "ri", "rt", "rti", "rf", "one"):
+                    lines.append(f"{c} show sl {f} {A} {B} {base}")
+            # nested re-slicing, depth 1..3, then read every position
+            for _ in range(8 if tier == "quick" else 120):
+                d = r.randrange(1, 4)
+                e, ln = slice_expr(g, base, n, d)
+                lines.append(f"{c} show {e}")
+                lines.append(f"{c} len {e}")
+                if ln > 0:
+                    i = r.randrange(ln)
+                    lines.append(f"{c} nth {i} {e}")
+                lines.append(f"{c} get {ln} {e}")
+                lines.append(f"{c} nth {ln} {e}")
+                # one step out of bounds at the innermost level
+                lines.append(f"{c} show sl r 0 {ln + 1} {e}")
+            # indices whose bit offset overflows usize (debug panics; release wraps: known finding)
+            for v in big:
+                lines.append(f"{c} nth {v} {base}")
+                lines.append(f"{c} get {v} {base}")
+                lines.append(f"{c} show sl r {v} {v} {base}")
+                lines.append(f"{c} show sl ri 0 {v} {base}")
+        # slices of owned copies, static k-mer derefs
+        t = g.text(c, 9)
+        lines.append(f"{c} show sl r 1 3 own sl r 2 8 p str {hx(t)}")
+    return lines
+
+
 def gen_C05(g, tier):
     lines = []
     for c in CODECS:
